@@ -143,11 +143,17 @@ def encodeBaseType (b : BaseType) : J :=
     ("minLength", b.minLength.map jInt), ("maxLength", b.maxLength.map jInt),
     ("refTable", b.refTable.map J.str), ("refType", b.refType.map J.str)])
 
+/-- `isUUIDAtom`: the array is the <atom> ["uuid", x] or ["named-uuid", x] -/
+def isUUIDAtomJ : List J → Bool
+  | [t, .str _] => strEq t "uuid" || strEq t "named-uuid"
+  | _ => false
+
 /-- the "enum" member read back (`BaseType.UnmarshalJSON`): the values, and whether the member was there -/
 def decodeEnum : Option J → Outcome (List J × Bool)
   | none => .ok ([], false)
   | some (.arr oSet) =>
-    if oSet.length ≠ 2 || !headIs oSet ["set"] then .err "enum is neither an atom nor a set"
+    if isUUIDAtomJ oSet then .ok ([.arr oSet], true)     -- a single uuid atom (as repaired, defect D70)
+    else if oSet.length ≠ 2 || !headIs oSet ["set"] then .err "enum is neither an atom nor a set"
     else do
       let second ← idx oSet 1
       if !isArr second then .err "enum is neither an atom nor a set"
